@@ -592,7 +592,20 @@ def build_classes(world):
         def __init__(self, tags):
             self.tags = set(tags)
 
-    for k in (PObj, PSub, PDef, PSet, POpt):
+    from taskchain.parameter import IgnoreForPersistence
+
+    class PHook(AutoParameterObject, IgnoreForPersistence):
+        """helper object (progress printer, debug hook) that has no influence on what is computed"""
+        def __init__(self, every=1):
+            self.every = every
+
+    class PCb(AutoParameterObject):
+        """takes a container of values and helper objects; the helpers are not part of the computation at any depth"""
+        def __init__(self, a, hooks=None):
+            self.a = a
+            self.hooks = hooks
+
+    for k in (PObj, PSub, PDef, PSet, POpt, PHook, PCb):
         k.__module__ = 'tcw.objs'
         setattr(om, k.__name__, k)
     class MemBox(InMemoryData):
@@ -711,6 +724,8 @@ def _vary_objs(v, rnd):
                 kw[ign] = rnd.random() < 0.5
             else:
                 kw.pop(ign, None)
+        if cname == 'PCb' and kw.get('hooks') is not None:
+            kw['hooks'] = _vary_hooks(kw['hooks'], rnd)
         for dk, dv in A.OBJ_DEFAULTS.get(cname, {}).items():
             if dk in kw and kw[dk] == dv and type(kw[dk]) is type(dv) and rnd.random() < 0.5:
                 del kw[dk]
@@ -725,6 +740,32 @@ def _vary_objs(v, rnd):
         items = [(k, _vary_objs(x, rnd)) for k, x in v.items()]
         rnd.shuffle(items)
         return dict(items)
+    return v
+
+
+def _is_hook(x):
+    return isinstance(x, dict) and str(x.get('class', '')).endswith('.PHook')
+
+
+def _vary_hooks(v, rnd):
+    """other helper objects (ignored for persistence) at the same places of a container: changed, dropped, added"""
+    if isinstance(v, list):
+        out = []
+        for x in v:
+            if _is_hook(x):
+                t = rnd.random()
+                if t < 0.3:
+                    continue
+                if t < 0.7:
+                    x = {'class': x['class'], 'kwargs': {'every': rnd.choice([1, 2, 5, 10])}}
+                out.append(x)
+            else:
+                out.append(_vary_hooks(x, rnd))
+        if rnd.random() < 0.3:
+            out.insert(rnd.randint(0, len(out)), {'class': 'tcw.objs.PHook', 'kwargs': {'every': rnd.choice([1, 3])}})
+        return out
+    if isinstance(v, dict) and 'class' not in v:
+        return {k: (_vary_hooks(x, rnd) if not _is_hook(x) else {'class': x['class'], 'kwargs': {'every': rnd.choice([1, 2, 7])}}) for k, x in v.items()}
     return v
 
 
